@@ -553,8 +553,14 @@ def _cli_sample(run, rng, jobs, conf, cli_budget) -> None:
                 rc, err = "HANG", ""
             run.count(f"cli:exit={rc}")
             if rc not in (0, 1) or "Traceback" in err:
+                depth = cur = 0
+                for ch in files.get(main, b"").decode("utf-8", "replace"):
+                    cur += ch == "{"
+                    cur -= ch == "}"
+                    depth = max(depth, cur)
                 kf = "KF-int-digits-render" if "Exceeds the limit" in err and conf.get("KF-int-digits-render") else \
-                     "KF-empty-enum" if "format_default_value_enum" in err and conf.get("KF-empty-enum") else None
+                     "KF-empty-enum" if "format_default_value_enum" in err and conf.get("KF-empty-enum") else \
+                     "KF-deep-nesting" if "RecursionError" in err and conf.get("KF-deep-nesting") and depth >= 200 else None
                 if kf:
                     run.count("suppressed:" + kf)
                     continue
